@@ -55,7 +55,16 @@ pub struct {ident} {{
 pub fn emit_const(r#const: &Const) -> String {
     let ident = r#const.ident.to_uppercase();
     let ty = change_primitive(r#const.r#type);
-    let value = &r#const.value;
+    let mut value = r#const.value.clone();
+    // A floating-point constant written without a fraction or exponent (`3`) is an integer
+    // literal in Rust and does not type-check against f32/f64.
+    if matches!(
+        r#const.r#type,
+        idlc_mir::Primitive::Float32 | idlc_mir::Primitive::Float64
+    ) && value.chars().all(|c| c.is_ascii_digit() || c == '-')
+    {
+        value.push_str(".0");
+    }
 
     format!("pub const {ident}: {ty} = {value};\n")
 }
